@@ -941,9 +941,9 @@ def c12_oracle(c, impl_line):
 # ------------------------------------------------------------------ C05
 
 LIST_DIRS = ['/a/b', '/a/b/', 'rel', './rel', 'x/../rel', '', '/a/./b', '/c', 'a//b', '/', 'd1.x', '/shots.v1.final', 'x.5.d/y']
-LIST_BASES = ['foo.', 'foo_', 'bar.', 'a', 'img-', 'v2_', 's', 'x,', 'shot_010_', 'foo', 'foo.bar.', 'y', 'ab-', '']
+LIST_BASES = ['foo.', 'foo_', 'bar.', 'a', 'img-', 'v2_', 's', 'x,', 'shot_010_', 'foo', 'foo.bar.', 'y', 'ab-', '', '-', '--', 'a--', '1-', '.-']
 LIST_EXTS = ['.exr', '.jpg', '.tar.gz', '', '.1.ext', '.a.jpg', '.tif', '.e7']
-SINGLES = ['readme.txt', 'noext', 'file.with.dots.exr', 'a.b.c', 'Makefile', 'x.tar.gz', 'frame_.exr', '-', '_', 'v.', 'abc.def-ghi']
+SINGLES = ['readme.txt', 'noext', 'file.with.dots.exr', 'a.b.c', 'Makefile', 'x.tar.gz', 'frame_.exr', '-', '_', 'v.', 'abc.def-ghi', '--5.exr', '-5', '--', '-.exr', '--5', '1--5.exr']
 OPT_SINGLE, OPT_HIDDEN, OPT_H1, OPT_H4 = 1, 0, 2, 3
 
 
@@ -1157,8 +1157,10 @@ def disk_dir(rng, n):
         k = rng.random()
         if nm.startswith('sub') or k < 0.12:
             kind = 'D'
-        elif k < 0.2:
+        elif k < 0.17:
             kind = 'LF'
+        elif k < 0.2:
+            kind = 'LS'
         elif k < 0.27:
             kind = 'LD'
         elif k < 0.3:
@@ -1200,7 +1202,7 @@ def c06_oracle(c, impl_line):
     if not impl_line.startswith('OK'):
         return ['status ' + impl_line[:30]]
     prefix = go_clean(m['path']) + '/'
-    files = [e.split(':', 1)[1] for e in m['ents'] if e.split(':', 1)[0] in ('F', 'LF')]
+    files = [e.split(':', 1)[1] for e in m['ents'] if e.split(':', 1)[0] in ('F', 'LF', 'LS')]
     for r in listing_records(impl_line):
         for p in r[3]:
             if not p.startswith(prefix) or '/' in p[len(prefix):]:
@@ -1217,7 +1219,7 @@ def c06_extra_lines(c, impl):
     prefix = go_clean(m['path']) + '/'
     kinds = {e.split(':', 1)[1]: e.split(':', 1)[0] for e in m['ents']}
     names = c.get('order') or [e.split(':', 1)[1] for e in m['ents']]
-    files = [prefix + n for n in names if kinds.get(n) in ('F', 'LF')]
+    files = [prefix + n for n in names if kinds.get(n) in ('F', 'LF', 'LS')]
     return [line('list', ','.join(map(str, m['opts'])), *files)]
 
 
@@ -1239,7 +1241,7 @@ def c07_cases(rng, tier):
     n = 900 if tier == 'quick' else 12000
     for i in range(n):
         base = rng.choice(['foo.', 'foo_', 'bar.', 'shot_010_', 'img_', 'a'])
-        ext = rng.choice(['.exr', '.jpg', '.tar.gz', '.1.ext', ''])
+        ext = rng.choice(['.exr', '.jpg', '.tar.gz', '.1.ext', '', '.0007', '.2', '_1'])
         w = rng.choice([1, 2, 3, 4, 4, 4, 5])
         uniform = rng.random() < 0.6
         frames = sorted(set(rng.randint(0, 10 ** min(w, 3)) for _ in range(rng.randint(0, 6))))
@@ -1251,11 +1253,12 @@ def c07_cases(rng, tier):
             names.append(base + '-' + str(rng.randint(1, 20)).rjust(max(w - 1, 1), '0') + ext)
         sib = [base + ext, base[:-1] if len(base) > 1 else 'q', base + 'bar' + ext, base + '1-5' + ext, base + ext + '.bak',
                'x' + base + '0001' + ext, base + '+5' + ext, base + '1e3' + ext, base + '0001' + ext + 'x', base + '.' + ext,
-               base + '12a' + ext, base + ' 7' + ext, base + '99999999999999999999' + ext]
+               base + '12a' + ext, base + ' 7' + ext, base + '99999999999999999999' + ext,
+               base + ext[1:], base[:-1] + ext, base + ext[-1:]]        # prefix and suffix overlap
         ents = ['F:' + x for x in names]
         for x in rng.sample(sib, rng.randint(0, 5)):
             if x and x not in names and '/' not in x:
-                ents.append(rng.choice(['F:', 'F:', 'F:', 'D:', 'LF:']) + x)
+                ents.append(rng.choice(['F:', 'F:', 'F:', 'D:', 'LF:', 'LS:']) + x)
         ents = list(dict.fromkeys(ents))
         ents = [e for j, e in enumerate(ents) if e.split(':', 1)[1] not in [x.split(':', 1)[1] for x in ents[:j]]]
         k = rng.randrange(10)
@@ -1304,7 +1307,7 @@ def c07_oracle(c, impl_line):
     if impl_line.startswith('ERR'):
         return ['error on a readable directory']
     f = []
-    files = set(e.split(':', 1)[1] for e in m['ents'] if e.split(':', 1)[0] in ('F', 'LF'))
+    files = set(e.split(':', 1)[1] for e in m['ents'] if e.split(':', 1)[0] in ('F', 'LF', 'LS'))
     if m['kind'] == 'nopad' or m['kind'] == 'frame':
         base, ext = None, None      # the pattern's own base/ext come from the single-file parse; soundness only
     else:
